@@ -76,7 +76,7 @@ func init() { ev.RegisterReplay(chkIndex, replay) }
 // in particular nothing may be allocated for an index that no array of the document can have.
 func TestArrayIndexSweep(t *testing.T) {
 	idx := []string{"-2", "-1", "0", "1", "2", "3", "-", "00", "+1", "1000000", "1099511627776", "17592186044416", "4611686018427387904", "9223372036854775807", "9223372036854775808", "18446744073709551616"}
-	ev.Rule(chkIndex, fmt.Sprintf("deterministic sweep: 6 RFC 6902 operations x 3 arrays (top-level, nested in an array, nested in an object) x %d index spellings from -2 to beyond 2^64 (incl. 10^6, 2^40, 2^44, 2^62, 2^63-1) x {path, from} x 2 documents, plus move / copy whose source is an earlier element of the array the target goes through (the positions shift when the source is taken out); oracle: a document or an error - never a panic, a hang or a fatal crash (in-flight journal); non-trivial = every case", len(idx)))
+	ev.Rule(chkIndex, fmt.Sprintf("deterministic sweep: 6 RFC 6902 operations x 3 arrays (top-level, nested in an array, nested in an object) x %d index spellings from -2 to beyond 2^64 (incl. 10^6, 2^40, 2^44, 2^62, 2^63-1) x {path, from} x 2 documents, plus move / copy whose source is an earlier element of the array the target goes through (the positions shift when the source is taken out), plus arrays behind members whose names need pointer escaping (~0, ~1, and ~01 which is the name '~1'); oracle: a document or an error - never a panic, a hang or a fatal crash (in-flight journal); non-trivial = every case", len(idx)))
 	item := 0
 	for di, doc := range []interface{}{smallDocs[1], smallDocs[2]} {
 		for _, op := range []string{"add", "remove", "replace", "move", "copy", "test"} {
@@ -122,6 +122,27 @@ func TestArrayIndexSweep(t *testing.T) {
 				c := &Case{Enabled: wire.AllPatches, Doc: deep(shiftDoc), Patches: []interface{}{map[string]interface{}{"action": "ietf-json-patch", "patches": []interface{}{o}}}}
 				kind, msg, accepted := evalCase(c)
 				ev.Record(chkIndex, true, ev.Hash(c), "op:"+op, "role:shifted-target", "index:"+i, fmt.Sprintf("accepted:%v", accepted))
+				ev.SampleFn(chkIndex, func() interface{} { return map[string]interface{}{"operation": o, "accepted": accepted} })
+				if kind != "" {
+					ev.Fail(t, chkIndex, kind, sigOf(kind, msg), c, "%s", msg)
+				}
+			}
+		}
+	}
+	// arrays behind members whose names need escaping in a JSON pointer ('~' as ~0, '/' as ~1; "~01" is the name "~1",
+	// not "/"): whoever follows the pointer in front of the patch library has to read the tokens as the library does
+	escDoc := map[string]interface{}{"~1": []interface{}{"a", "b"}, "a/b": []interface{}{"a"}, "~": []interface{}{"a"}, "~0": []interface{}{"a"}, "x~1y": map[string]interface{}{"l": []interface{}{"a"}}, "label": "text"}
+	for _, op := range []string{"move", "copy", "add", "replace"} {
+		for _, container := range []string{"/~01", "/a~1b", "/~0", "/~00", "/x~01y/l"} {
+			for _, i := range []string{"1", "3", "1000000", "17592186044416", "9223372036854775807"} {
+				item++
+				if !ev.Mine(item) {
+					continue
+				}
+				o := map[string]interface{}{"op": op, "from": "/label", "path": container + "/" + i, "value": "v"}
+				c := &Case{Enabled: wire.AllPatches, Doc: deep(escDoc), Patches: []interface{}{map[string]interface{}{"action": "ietf-json-patch", "patches": []interface{}{o}}}}
+				kind, msg, accepted := evalCase(c)
+				ev.Record(chkIndex, true, ev.Hash(c), "op:"+op, "role:escaped-member-name", "index:"+i, fmt.Sprintf("accepted:%v", accepted))
 				ev.SampleFn(chkIndex, func() interface{} { return map[string]interface{}{"operation": o, "accepted": accepted} })
 				if kind != "" {
 					ev.Fail(t, chkIndex, kind, sigOf(kind, msg), c, "%s", msg)
